@@ -46,19 +46,24 @@ def generate(rng, tier, rep):
                               'lines': [rng.randint(0, 3) for _ in range(k)], 'dots': rng.random() < 0.5, 'indented': rng.random() < 0.4,
                               # a slow stdout and children whose output arrives in pieces (real time only widens windows;
                               # what is printed must not depend on it)
-                              'slow': rng.random() < 0.35})
+                              'slow': rng.random() < 0.35,
+                              # the first of the k layers is the unit-test layer (a layer like any other under -j N)
+                              'unit_first': N > 1 and rng.random() < 0.4})
     for c in cases:
         rep.count('k=%d' % c['k'])
         rep.count('N=%d' % c['N'])
         rep.count('slow stdout' if c['slow'] else 'prompt stdout')
+        rep.count('unit-test layer among the k layers' if c.get('unit_first') else 'named layers only')
         rep.count('collector=%s' % ('immediate' if c['N'] == 1 else 'keepalive' if c['verbosity'] == '-vv' else 'deferred'))
     return cases
 
 
 def run_sched(i, c):
     k, N = c['k'], c['N']
-    world = {'layers': [{'name': LNAMES[j], 'bases': [], 'kind': 'instance', 'hooks': {}} for j in range(k)],
-             'tests': [{'layer': j} for j in range(k)],
+    uf = bool(c.get('unit_first')) and N > 1
+    names = (['UnitTests'] + LNAMES[1:k]) if uf else LNAMES[:k]
+    world = {'layers': [{'name': LNAMES[j], 'bases': [], 'kind': 'instance', 'hooks': {}} for j in range(1 if uf else 0, k)],
+             'tests': ([{'layer': None}] + [{'layer': j - 1} for j in range(1, k)]) if uf else [{'layer': j} for j in range(k)],
              'options': ['-j%d' % N] + ([c['verbosity']] if c['verbosity'] else []),
              'script_parts': [os.path.join(fw.HARNESS, 'fakechild.py')]}
     if N == 1:
@@ -91,9 +96,9 @@ def run_sched(i, c):
             if c['dots']:
                 out += b'..\n'
         tokens[j] = toks
-        script[LNAMES[j]] = {'barrier': os.path.join(d, 'b%d' % j), 'stdout': out.hex(), 'stderr': b'1 0 0\n'.hex(), 'end': 'exit0'}
+        script[names[j]] = {'barrier': os.path.join(d, 'b%d' % j), 'stdout': out.hex(), 'stderr': b'1 0 0\n'.hex(), 'end': 'exit0'}
         if c.get('slow'):
-            script[LNAMES[j]]['pause'] = 0.06
+            script[names[j]]['pause'] = 0.06
     json.dump(script, open(os.path.join(d, 'fake.json'), 'w'))
     spec = {'dir': d, 'args': ['--path', d, '--tests-pattern', '^%s$' % mod] + world['options'], 'script_parts': world['script_parts']}
     if c.get('slow'):
